@@ -28,7 +28,7 @@ pub fn registry() -> Vec<Entry> {
             "C01",
             900,
             24_000,
-            600_000,
+            1_000_000,
             "ABI-safe but internally wild programs (1-4 functions: multi-step and nested sp adjustment, re-used stack slots, sw zero, store-then-redefine-then-reload, sub-word stack accesses, red-zone stores across calls, arithmetic on sp copies, folding chains over all operators with boundary constants, la + loads/stores, ecalls with results, mv into a7, diamonds, counted loops, early returns, recursion) x 3-5 vectors of initial registers / memory / environment results, executed on the reference machine. At every step every claim in the node's in/out value maps of the kinds the statement names (constant, label address, entry value + constant; for registers and stack slots relative to the entry sp) is compared with the machine state of the current activation. Non-trivial = at least one derived claim (not an entry seed) was checked; distinct = different program + inputs.",
             &["reference machine", "callees are ABI-safe by construction; a trace is cut where a function writes at/above its entry sp", "RARS environment-call register table taken from the analyzer", "other value kinds (register+scalar, memory-at, CSR) are not claims in the sense of the statement"],
         ),
@@ -36,7 +36,7 @@ pub fn registry() -> Vec<Entry> {
             "C02",
             900,
             40_000,
-            1_000_000,
+            1_500_000,
             "programs from three generators (ABI-safe wild functions; structured arbitrary control flow; chaotic control flow with cross-function jumps and shared code), any number of functions / call sites / loops / recursion / multiple returns. Static half on all: a reference solver computes the least solution of the documented liveness equations over the observed graph with architectural read/write sets from the model; live_in/live_out of every node, arguments()/returns() of every function and the set of 'unused value' warnings must equal it (missing = unsound, extra = not minimal). Dynamic half on the ABI-safe programs x 2-4 input vectors: for every register read on the machine, the register must be live from its defining write (or frame entry, call or ecall by convention) along the executed path of its activation; callee read-before-write argument registers must be inferred arguments and live-in at the call; values left by a callee and read by the caller must be inferred returns; no executed-and-read definition carries an 'unused value' warning. Non-trivial = at least one call and one join.",
             &["reference machine and architectural read/write table", "RARS environment-call register table taken from the analyzer", "ra is not in kill at calls in the documented equations; the reference follows the documentation"],
         ),
@@ -44,7 +44,7 @@ pub fn registry() -> Vec<Entry> {
             "C03",
             700,
             120_000,
-            2_000_000,
+            2_500_000,
             "arbitrary well-formed programs in the stated domain (regions of labelled blocks with random branches/jumps/calls, cross-region jumps, shared tails, several labels per entry, multiple returns, exit ecalls inside functions, fall-through into functions, dead blocks; no indirect jump but ret) x 4-6 initial register/memory/environment vectors executed on the reference machine. Checked: successor/predecessor sets are exact inverses and stay inside the graph; every executed intra-procedural transfer (incl. call -> next instruction on return) is an edge; every edge is a fall-through, a jump to the written label or the merge of an extra return; exit ecalls have no successors; no executed line is reported unreachable. Programs with several returns are analysed 3 times (hash orders). Non-trivial = has a backward branch or a call and executed >= 5 distinct lines.",
             &["reference machine", "programs the analyzer rejects with a CFG error are skipped and counted (C16 covers them)"],
         ),
@@ -69,8 +69,8 @@ pub fn registry() -> Vec<Entry> {
                 "C06",
                 2600,
                 20_000,
-                1_500_000,
-                "hostile inputs in five modes: character soup over a table with NUL, CR, quotes, backslashes, U+00A0, U+2028, BOM, emoji; token soup over the analyzer's own vocabulary (96 mnemonics/registers/directives/CSR names/labels, 40 boundary and malformed literals, punctuation); 1-4 line-level mutations of valid generated programs (delete/duplicate/swap/truncate line, drop operand, corrupt or insert a character, insert tokens) with LF or CRLF; 16 structural scaling families (runs of '.', '(', newlines, quotes; n labels; huge .word list; huge comment / operand list / literal; n labels + n branches; nested loops; diamond chains; call chains; unterminated .macro), also enumerated at fixed sizes up to 20 000 (thorough 100 000); include graphs over 1-4 in-memory files with self-inclusion, cycles, missing and unquoted targets. Each case runs RVParser::run (library entry point) and the staged pipeline in-process under catch_unwind with a deterministic sweep limit, in the overflow-checked and in the release profile; a worker that dies (stack overflow, abort, OOM) is re-run alone to confirm. One case in 25 is also written to disk and linted by the rva binary (dev/release) in one of 9 output modes under a CPU-time limit. Work bound: sweeps <= 4*(4+2n) / 4+2n from hook counters. Non-trivial = reached the parser with a node or an error, or a structural family.",
+                600_000,
+                "hostile inputs in five modes: character soup over a table with NUL, CR, quotes, backslashes, U+00A0, U+2028, BOM, emoji; token soup over the analyzer's own vocabulary (96 mnemonics/registers/directives/CSR names/labels, 40 boundary and malformed literals, punctuation); 1-4 line-level mutations of valid generated programs (delete/duplicate/swap/truncate line, drop operand, corrupt or insert a character, insert tokens) with LF or CRLF; 22 structural families (runs of '.', '(', newlines, quotes; n labels; huge .word list; huge comment / operand list / literal; n labels + n branches; nested loops; diamond chains; call chains; unterminated .macro; a function that leaves a saved register unrestored behind n balanced if/else blocks; the 12^3 grid of extreme immediates around sp; Unicode white space x 8 positions; a run of every character of the table (1 to 40 000) and of every token of the vocabulary (2 to 5 000); long lines ending in multi-byte characters x 5 indentations), enumerated at fixed sizes up to 20 000 (thorough 100 000), the crash-prone ones through the rva binary first; ten fixed include graphs on disk (self-inclusion and cycles under every spelling of the path, missing file, directory as file) x 3 modes; include graphs over 1-4 in-memory files with self-inclusion, cycles, missing and unquoted targets. Each case runs RVParser::run (library entry point) and the staged pipeline in-process under catch_unwind with a deterministic sweep limit, in the overflow-checked and in the release profile; a worker that dies (stack overflow, abort, OOM) is re-run alone to confirm. One case in 25 is also written to disk and linted by the rva binary (dev/release) in one of 9 output modes under a CPU-time limit. Work bound: sweeps <= 4*(4+2n) / 4+2n from hook counters. Non-trivial = reached the parser with a node or an error, or a structural family.",
                 &["a wall-clock watchdog expiry is inconclusive (exit 2), only the CPU-time limit and the sweep limit count as non-termination", "stack size is the default 8 MiB of the worker process"],
             );
             e.release_too = true;
@@ -80,7 +80,7 @@ pub fn registry() -> Vec<Entry> {
             "C07",
             400,
             600_000,
-            8_000_000,
+            30_000_000,
             "files of one statement per line (generated main+functions+data programs, every statement form) with 0-3 malformed/unsupported lines of 14 kinds inserted at random positions, LF/CRLF, with/without final newline, optionally cut into an included file. Or-A: every line with content is covered by a node or a parse error located on it; Or-B: nodes and errors of all other lines equal those of the file with the malformed lines deleted. Non-trivial = a malformed line with >= 3 good lines after it, or CRLF, or no final newline; distinct = different file contents.",
             &["line numbers are recomputed here from raw offsets", ".include lines are consumed by the parser and count as covered"],
         ),
@@ -89,7 +89,7 @@ pub fn registry() -> Vec<Entry> {
                 "C08",
                 8,
                 1_000_000,
-                20_000_000,
+                60_000_000,
                 "decode table: every mnemonic the reference machine knows x every operand form the manual assigns a meaning to x boundary registers {zero, ra, sp, t0, a0, t6} x boundary immediates, enumerated exhaustively: each statement is parsed, the node(s) built are compared field by field (base forms) and executed by the reference machine next to the official meaning on 6 register files (result register, next instruction, memory effect), and the node's read/write sets are compared with the architectural ones. Folding: 18 operators x a 40-value boundary grid squared (exhaustive) through MathOp::operate, 27 mnemonics x 12x12 sub-grid through the value analysis, plus random 32-bit pairs; both in the overflow-checked and the release profile. Every case is non-trivial; distinct = different statement / operand pair.",
                 &[
                     "reference machine (unit-tested against hand-computed vectors and i128 arithmetic)",
@@ -103,7 +103,7 @@ pub fn registry() -> Vec<Entry> {
             "C09",
             500,
             150_000,
-            2_500_000,
+            5_000_000,
             "generated programs (all statement forms, data section, optional malformed lines, optional include split, optional CRLF) rendered with every surface freedom (indentation, separators, case, register spelling, radix, inline labels, comments, blank lines, leading blank lines, omitted zero offsets). Every lexer token is compared with a reference tokenizer; every node, operand, parse error and diagnostic must have consistent line/column/raw, lie on one line, and designate exactly a statement / operand / label span of the renderer's source map (or whole tokens). Non-trivial = token on line 0 after column 0, or leading blank line, or ')'-terminated instruction, or diagnostic in an included file.",
             &["reference tokenizer written from the documented token classes", "directive nodes are checked at their start only (data lists may continue on following lines)", "diagnostics attached to no file are left to C16"],
         ),
@@ -127,7 +127,7 @@ pub fn registry() -> Vec<Entry> {
             "C12",
             500,
             30_000,
-            500_000,
+            1_000_000,
             "arbitrary programs (loops, irreducible flow via cross-region jumps, recursion, many exits and returns) x a random sequence (length 0-6) of extra pass runs drawn from {value analysis, ecall termination, liveness}. Snapshot (edges by index, value/memory facts, liveness, u_def, function annotations, diagnostics) after the standard pipeline must equal the snapshot after the extra sequence and the snapshot of a second, fresh analysis; hook counters bound the sweeps: value analysis <= 4*(4+2n) over its four runs, liveness <= 4+2n. Non-trivial = loop, several returns or exit inside a function, and >= 8 nodes.",
             &["sweep counters come from the guarded hook commit", "bounds were calibrated on the repaired tree with 2x headroom (maxima are reported in the evidence)"],
         ),
@@ -151,7 +151,7 @@ pub fn registry() -> Vec<Entry> {
             "C15",
             1600,
             24_000,
-            400_000,
+            800_000,
             "program (four sources, clean and violating) x random include tree cut at line boundaries (up to 4-5 files, nesting, several includes per file) x reader fault (not found, IO error, already read) or a self-/cyclic re-inclusion directive. Through the in-memory FileReader: the diagnostics of the split program, each located in the file that holds its text and mapped to the pasted line, must equal those of the single pasted file (minus the subtree of a failing include); each failing include must give an error located exactly on its path operand; the import must stay within a budget. One case in three spells the include paths as ./x, sub/../x or ./sub/.././x (same file under another name). For one case in 8 the same files are written to a scratch directory and linted by the rva binary: --all-files must show the library's items, the default output exactly the base-file items plus the right count for other files, and the tool must terminate. Non-trivial = a diagnostic in a non-base file or a fault.",
             &["MemReader decides 'already read' by path, like a file-system reader", "CLI part only for 'not found' faults (IO errors cannot be provoked portably on disk)"],
         ),
@@ -159,7 +159,7 @@ pub fn registry() -> Vec<Entry> {
             "C16",
             400,
             400_000,
-            10_000_000,
+            6_000_000,
             "parse-clean arbitrary programs with 1-2 injected CFG-level faults of 12 kinds (undefined label in j/branch/call/la/load, several undefined labels, duplicate code/function label, label at end of file as jump target or unused, function without return (infinite loop / exit inside), call to a data label), optionally cut into an included file. Required: undefined/duplicate labels give an error naming the label located at a use/definition of it; any other error that stops the analysis is specific (not 'unexpected'/'assertion'), attached to a user file and has a non-empty location. Non-trivial = at least one fault injected (tabulated per kind).",
             &["when undefined and duplicate labels occur together one correctly located error is accepted (analysis stops at the first)", "a combined error for several undefined labels is accepted when it is located at an occurrence of one of them"],
         ),
@@ -167,7 +167,7 @@ pub fn registry() -> Vec<Entry> {
             "C17",
             24,
             600_000,
-            8_000_000,
+            60_000_000,
             "literal = (value | malformed spelling) x notation {dec,hex,bin,char, two's-complement hex} x sign x letter case x padding, placed in 11 operand sites (li, addi, lui, lw/sw offset, jalr, .word/.byte/.half, CSR number, CSR immediate) and parsed through lexer+parser; boundaries of the 32-bit range +-2 are enumerated exhaustively over all notations and sites, the rest sampled. Non-trivial = anything but a plain positive in-range decimal; distinct = different (site, spelling).",
             &[
                 "own literal evaluator (the generator builds each spelling from a known mathematical value)",
